@@ -152,7 +152,9 @@ class Ctx:
         """Run TLC on spec/<comp>/<module>.tla. Returns dict with counts, action coverage, stdout."""
         meta = self.path("tlc-" + stage)
         shutil.rmtree(meta, ignore_errors=True)
-        jopts = "-DTLA-Library=%s -Xss1g -Xmx%s -XX:ParallelGCThreads=4" % (
+        tmpd = self.path("jtmp")
+        os.makedirs(tmpd, exist_ok=True)
+        jopts = "-Djava.io.tmpdir=%s -DTLA-Library=%s -Xss1g -Xmx%s -XX:ParallelGCThreads=4" % (tmpd, 
             os.pathsep.join([os.path.join(SPEC, "lib")] + [os.path.join(SPEC, d) for d in sorted(os.listdir(SPEC)) if d != "lib"]), heap)
         if deque:
             jopts += " -Dtlc2.tool.queue.IStateQueue=StateDeque"
